@@ -620,7 +620,9 @@ def _rotation(rng):
                      [2 * (x * z - y * w), 2 * (y * z + x * w), 1 - 2 * (x * x + y * y)]])
 
 
-BASE = dict(atom=["H", "O", "H"], pos=[[1.1, 1.3, 0.9], [3.2, 1.0, 1.4], [2.0, 3.1, 2.2]], ecut=8,
+# Si and C: two species that both carry non-local projectors (Si: two s and one p projector, C: one s projector) - LiH / H2O-like systems have
+# none or only one species with projectors and leave species-dependent parts of the non-local term unexercised
+BASE = dict(atom=["Si", "C", "Si"], pos=[[1.1, 1.3, 0.9], [3.2, 1.0, 1.4], [2.0, 3.1, 2.2]], ecut=8,
             a=[[7.0, 0.4, 0.2], [0.3, 7.5, 0.5], [0.1, 0.6, 8.0]], s=[15, 15, 17])
 
 
@@ -641,8 +643,6 @@ class RigidMotion:
             e1, _, _ = _energies(kw2, seed=seed)
         elif self.kind == "permutation":
             # two species that both carry s and p projectors (species-dependent radial parts of the non-local projectors)
-            kw = dict(kw, atom=["C", "O", "C"])
-            e0, at0, W0 = _energies(kw, seed=seed)
             p = rng.permutation(3)
             while list(p) == [0, 1, 2] or (seed % 100 == 0 and kw["atom"][p[0]] == kw["atom"][0]):
                 p = rng.permutation(3)  # the first instance of every run lists another species first
@@ -687,7 +687,7 @@ class RigidMotion:
                 wit = dict(kind=self.kind, seed=seed * 100 + k)
                 return Result(REFUTED, backend="native", witness=wit, replayed=True, replay_info=info,
                               detail=f"energy component {info['component']} changes by {err:.2e} Eh under a {self.kind.replace('_', ' ')}")
-        return Result(BOUNDED_OK, backend="native", detail=f"bounded: {n} random {self.kind.replace('_', ' ')}(s) of an H/O/H (permutation: C/O/C) system (interleaved species) (PBE, s/p projectors, triclinic cell): max component change {worst:.1e} Eh")
+        return Result(BOUNDED_OK, backend="native", detail=f"bounded: {n} random {self.kind.replace('_', ' ')}(s) of an Si/C/Si system (interleaved species, both with non-local projectors) (PBE, triclinic cell): max component change {worst:.1e} Eh")
 
     def replay(self, wit):
         err, info = self.case(wit["seed"])
